@@ -102,6 +102,11 @@ def publishVerdicts (pre : Server) (io : ImplOut) (origin topic payload : Str) (
       if recv.any (·.1 == c.conn) then [] else
       let subQ := (ents.filter fun (x, _, g) => x == cid && g.isNone).foldl (fun m (_, sub, _) => max m sub.qos) 0
       let q := min (min pubQos subQ) pre.caps.maximumQos
+      -- a share-group member's selected shared subscription is merged into its plain one
+      -- (`MergeSharedSelected`), so its single copy may travel at the shared subscription's QoS and
+      -- is then subject to the same reported drops / flow control as any QoS>0 delivery
+      let shQ := (ents.filter fun (x, _, g) => x == cid && g.isSome).foldl (fun m (_, sub, _) => max m sub.qos) 0
+      let q := if sharedMember cid then max q (min (min pubQos shQ) pre.caps.maximumQos) else q
       let excused := q > 0 && ((c.maxSend > 0 && c.sendQuota == 0) || pre.caps.maximumInflight < 8192 ||
         io.events.any (·.startsWith "idexh") || pre.caps.maximumPacketID < 65535) || io.closed.contains c.conn || gone.contains c.conn
       if excused then [] else
@@ -312,6 +317,10 @@ def brokerOpV (st : BkState) (impl : String) (ws : List String) : Option (BkStat
   let (core, flags) := match impl.splitOn " V[" with
     | [a, b] => (a, " V[" ++ b)
     | _ => (impl, "")
+  -- the hidden-state token is part of the model/implementation comparison, not of the spec verdicts
+  let core := match core.splitOn " H[" with
+    | [a, _] => a
+    | _ => core
   match brokerOp st impl ws with
   | some (st', m, _, g) => some (st', m, renderVerdicts (brokerVerdicts st.srv ws core flags), g)
   | none => none
